@@ -107,7 +107,7 @@ def write_unit_c(workdir, name, includes, enum_text, bodies, extra=''):
 def run_job(job):
     """returns dict(status, results, log, wall, cmd)"""
     wd = job.workdir
-    base = os.path.join(wd, job.jobname)
+    base = os.path.join(wd, getattr(job, 'filebase', None) or job.jobname)
     inc = ['-I', wd, '-I', os.path.join(HERE, 'prelude'), '-I', os.path.join(HERE, 'contracts'), '-I', os.path.join(HERE, 'stubs'), '-I', os.path.join(HERE, 'lemmas')]
     defs = ['-D' + d for d in job.defines] + ['-DNIXC_CBMC']
     defs += ['-DNIX_CANARY_%s=__CPROVER_ensures(0&&"COVER-canary")' % f for f in job.enforce]
@@ -197,7 +197,7 @@ def run_split(job, cmd_c):
 
 def trace_for(job, prop, timeout=300):
     """counterexample for one failed property as {lhs: value} of harness-level assignments"""
-    base = os.path.join(job.workdir, job.jobname)
+    base = os.path.join(job.workdir, getattr(job, 'filebase', None) or job.jobname)
     cmd = ['cbmc'] + CBMC_CHECKS + job.cbmc_flags + ['--property', prop, '--trace', '--json-ui', base + '.b.gb']
     rc, out, wall = sh(cmd, timeout)
     try:
